@@ -502,6 +502,11 @@ func judgeC04W(j *judgeCtx) {
 				}
 				continue
 			}
+			if e.Sub >= 0 && e.Sub < len(wd.subs) {
+				if s := wd.subs[e.Sub]; s.AddOK == 2 {
+					j.add("C04.h", e.Seq, "job %d was handed out at %d, but its submission was reported refused (Add returned false at %d): the dispatch sequence contains a job that was never accepted", e.Sub, e.Seq, s.AddRet)
+				}
+			}
 			if len(content) == 0 {
 				j.add("C04.c", e.Seq, "job %d was dequeued from a queue the model says is empty", e.Sub)
 				return
